@@ -19,6 +19,19 @@ import (
 
 var genPath = []vector3.Float64{vector3.New(0., 0., 0.), vector3.New(0., 1., 0.), vector3.New(1., 2., 0.), vector3.New(2., 2., 1.)}
 
+// pathOf: n points of the path; optionally one point repeats its predecessor exactly (a stationary sample of a
+// recorded trajectory) - in the middle or at the end
+func pathOf(n int) []vector3.Float64 {
+	p := append([]vector3.Float64{}, genPath[:n]...)
+	switch zz.Choose("repeat", 3) {
+	case 1:
+		p[1] = p[0]
+	case 2:
+		p[n-1] = p[n-2]
+	}
+	return p
+}
+
 func optStrip(name string) *primitives.StripUVs {
 	if !zz.Bool(name) {
 		return nil
@@ -37,8 +50,9 @@ func ZZ_C02_ExtrudePolygon() {
 	n := 2 + zz.Choose("points", zz.Bound("PTS")-1)
 	sides := 3 + zz.Choose("sides", zz.Bound("SIDES")-2)
 	pts := make([]extrude.ExtrusionPoint, n)
+	path := pathOf(n)
 	for i := range pts {
-		pts[i] = extrude.ExtrusionPoint{Point: genPath[i], Thickness: 0.5}
+		pts[i] = extrude.ExtrusionPoint{Point: path[i], Thickness: 0.5}
 		if zz.Bool(fmt.Sprintf("uv%d", i)) {
 			pts[i].UV = &extrude.ExtrusionPointUV{Point: vector2.New(0.25*float64(i), 0.5), Thickness: 0.5}
 		}
@@ -52,12 +66,13 @@ func ZZ_C02_ExtrudePolygon() {
 
 func ZZ_C02_ExtrudeOthers() {
 	n := 2 + zz.Choose("points", zz.Bound("PTS")-1)
+	path := pathOf(n)
 	zz.Reach("input")
 	switch zz.Choose("gen", 5) {
 	case 0:
 		lp := make([]extrude.LinePoint, n)
 		for i := range lp {
-			lp[i] = extrude.LinePoint{Point: genPath[i], Up: vector3.New(0., 0., 1.), Width: 0.5, Height: 0.25, Uv: vector2.New(0.5, float64(i)), UvWidth: 1}
+			lp[i] = extrude.LinePoint{Point: path[i], Up: vector3.New(0., 0., 1.), Width: 0.5, Height: 0.25, Uv: vector2.New(0.5, float64(i)), UvWidth: 1}
 			if zz.Bool(fmt.Sprintf("flat%d", i)) {
 				lp[i].Width = 0
 			}
@@ -67,12 +82,12 @@ func ZZ_C02_ExtrudeOthers() {
 		k := 3 + zz.Choose("shape", 2)
 		shape := []vector2.Float64{vector2.New(0., 0.), vector2.New(1., 0.), vector2.New(1., 1.), vector2.New(0., 1.)}[:k]
 		if zz.Bool("closed") {
-			WF(extrude.ClosedShape(shape, genPath[:n]), "extrude.ClosedShape")
+			WF(extrude.ClosedShape(shape, path), "extrude.ClosedShape")
 		} else {
-			WF(extrude.Shape(shape, genPath[:n]), "extrude.Shape")
+			WF(extrude.Shape(shape, path), "extrude.Shape")
 		}
 	case 3:
-		c := extrude.Circle{Resolution: 3 + zz.Choose("res", 2), Radius: 0.5, Path: genPath[:n], ClosePath: zz.Bool("closePath")}
+		c := extrude.Circle{Resolution: 3 + zz.Choose("res", 2), Radius: 0.5, Path: path, ClosePath: zz.Bool("closePath")}
 		if zz.Bool("radii") {
 			c.Radii = []float64{0.5, 0.25, 0.75, 0.5}[:n]
 		}
